@@ -72,6 +72,18 @@ claim("C13",
       "Trusted: python ast; documented directive set {# @ ^ + -} from docs/input.rst.",
       "DESIGN.md §4 C13")
 
+claim("C17",
+      "error-discipline and parser-grammar analysis over ast (raise-type lint, None-contradiction with one-level "
+      "propagation, EOF obligation at parser entry points, regex-AST analysis of the token table, loop-progress and "
+      "left-recursion analysis of the recursive-descent parser, bracket pairing on paths, raw-YAML subscript guards)",
+      "Decides definite internal failures and definite silent acceptances that are visible in the source: wrong "
+      "exception classes, dereference of a parameter that the code itself treats as possibly None, parser entry points "
+      "that do not require EOF, token alternatives that can match empty or shadow a longer literal, parser loops or "
+      "recursions that can run without consuming a token, opening brackets not closed by mustbe on a normal exit, and "
+      "unguarded constant-key subscripts on raw YAML data. Absence of implicit exceptions for all inputs is not decided.",
+      "Trusted: python ast and re._parser; 'definitely consuming' summaries are a least fixed point over the parser methods.",
+      "DESIGN.md §4 C17")
+
 PENDING = "check not built yet in this session (fail-closed: not claimed until its rules run clean)"
-for _p in ["C01","C02","C03","C06","C08","C09","C10","C11","C14","C17","C18"]:
+for _p in ["C01","C02","C03","C06","C08","C09","C10","C11","C14","C18"]:
     na(_p, PENDING)
